@@ -143,6 +143,10 @@ def run(prop, tier, only_inv=None):
                                "replayed": br.n, "tlc_wall_s": round(res.wall, 1)})
         log("[%s] %s: %d distinct / %d transitions, %d replayed, %d skipped" % (prop, cfg, res.distinct, res.generated, br.n, br.skipped))
     cov["invariant_leads_by_kind"] = invs_seen
+    # the nestings of callcontext / pcall / coroutines in generated programs (C07's quantifier): a lighter run of the
+    # program-level machinery of C05 (hook traces validated by TLC against this same specification)
+    import quotaprog
+    quotaprog.program_level(rep, prop, tier, "cpu", drv, light=True)
     cov["exhaustive"] = True
     cov["explanation"] = ("every transition of the bounded Quota model replayed on the real runtimeContextManager through the "
                           "exported Runtime API (values scaled by 2^60 so that 4-bit saturation/wrap is 64-bit saturation/wrap, and "
